@@ -413,6 +413,7 @@ class C17(Prop):
             _typed(data)
             want = expected_offenders(data)
             before = copy.deepcopy(data)
+            _prior_history(M, data)
             try:
                 m = M.Metadata.from_raw(data)
             except M.ExceptionGroup as g:
@@ -553,6 +554,31 @@ class C17(Prop):
                     return False, f"accepted although {sorted(want)} offend"
             return True, ""
         raise KeyError(law)
+
+
+def _prior_history(M, data):
+    """an earlier caller built a Metadata from an equal dict, read everything and changed what it was handed (the enriched
+    values are its own: Requirement objects are mutable, lists are lists); none of that may show in a later Metadata"""
+    try:
+        prev = M.Metadata.from_raw(copy.deepcopy(data), validate=False)
+    except Exception:
+        return
+    for k in G.FIELDS:
+        try:
+            v = getattr(prev, k)
+        except Exception:
+            continue
+        for x in (v if isinstance(v, list) else [v]):
+            if type(x).__name__ == "Requirement":
+                x.extras.add("scribble")
+                x.marker, x.url, x.name = None, "https://scribble.example/", "scribble"
+                x.specifier.prereleases = True
+            elif type(x).__name__ == "SpecifierSet":
+                x.prereleases = True
+        if isinstance(v, list):
+            v.append("scribble")
+        elif isinstance(v, dict):
+            v["scribble"] = "scribble"
 
 
 def _as_dict(d):
